@@ -149,11 +149,14 @@ KeepSet(S, wm) ==
 
 EvictTombs(S) == {e \in S : ~(e.t = "T" /\ \A f \in S : f.k = e.k => f.s >= e.s)}
 
-\* compaction filters, decided from the key.  The builder's assigner hands every name in
-\* FilterNames its OWN filter (kind "A" for the name "a", kind "B" for every other name):
-\*   A: key 1 -> Remove, key 2 -> ReplaceValue(99), every other key -> Keep
-\*   B: key 1 -> ReplaceValue(98), key 2 -> Remove, every other key -> Keep
-\* Applied to every value entry a compaction rewrites.
+\* compaction filters.  The builder's assigner hands every name in FilterNames its OWN filter
+\* (kind "A" for the name "a", kind "B" for every other name):
+\*   A (decided from the key):  key 1 -> Remove, key 2 -> ReplaceValue(99), other keys -> Keep
+\*   B (looks at the value too): key 1 -> ReplaceValue(98); key 2 -> Remove if the value is an odd
+\*      number, Keep if it is even (a "TTL in the value" filter); other keys -> Keep
+\* Applied to every value entry a compaction rewrites (CompactionStream offers every version it
+\* retains to the filter, newest first; versions below the gc watermark are drained unseen -
+\* which KeepSet after ApplyFilter reproduces).
 FilteredVal == 99
 FilteredValB == 98
 KindFor(n) == IF n \notin FilterNames THEN "none" ELSE IF n = "a" THEN "A" ELSE "B"
@@ -162,14 +165,14 @@ FilterEntryK(kind, e) ==
     ELSE IF kind = "A" THEN (IF e.k = 1 THEN [e EXCEPT !.t = "T", !.v = NoVal]      \* Verdict::Remove
                              ELSE IF e.k = 2 THEN [e EXCEPT !.v = FilteredVal]       \* Verdict::ReplaceValue
                              ELSE e)                                                \* Verdict::Keep
-    ELSE (IF e.k = 2 THEN [e EXCEPT !.t = "T", !.v = NoVal]
+    ELSE (IF e.k = 2 THEN (IF e.v % 2 = 1 THEN [e EXCEPT !.t = "T", !.v = NoVal] ELSE e)
           ELSE IF e.k = 1 THEN [e EXCEPT !.v = FilteredValB]
           ELSE e)
 ApplyFilter(S, kind) == {FilterEntryK(kind, e) : e \in S}
 FilteredFormK(kind, k, v) ==
     IF v = NoVal \/ kind = "none" THEN v
     ELSE IF kind = "A" THEN (IF k = 1 THEN NoVal ELSE IF k = 2 THEN FilteredVal ELSE v)
-    ELSE (IF k = 2 THEN NoVal ELSE IF k = 1 THEN FilteredValB ELSE v)
+    ELSE (IF k = 2 THEN (IF v % 2 = 1 THEN NoVal ELSE v) ELSE IF k = 1 THEN FilteredValB ELSE v)
 
 Merge(S, wm, evict, fon) ==
     LET kept == KeepSet(ApplyFilter(S, fon), wm)
@@ -378,8 +381,12 @@ Write(n, k, isDel) ==
                    filt, frozen, taint, mtaint, ing, kf, everDel, nreopen, nmaint, nviews>>
 
 \* a batch of two items (possibly over two keyspaces, possibly the same key twice)
-BatchCommit(n1, k1, d1, n2, k2, d2) ==
-    /\ EnBatch
+\* `dur`: the durability level the batch was given ("none" = the default: Buffer, or nothing
+\* with manual journal persist).  Like Persist it changes no logical state; a batch committed
+\* with SyncData / SyncAll is a sync point of the crash / power-loss campaigns (C09).
+BatchDurs == IF EnPersist THEN {"none", "Buffer", "SyncData", "SyncAll"} ELSE {"none"}
+BatchCommit(n1, k1, d1, n2, k2, d2, dur) ==
+    /\ EnBatch /\ dur \in BatchDurs
     /\ nops < MaxOps
     /\ kmap[n1] # 0 /\ kmap[n2] # 0 /\ NoStall(kmap[n1]) /\ NoStall(kmap[n2])
     /\ (d1 \/ d2) => EnRemove
@@ -403,11 +410,45 @@ BatchCommit(n1, k1, d1, n2, k2, d2) ==
        /\ ref' = [m \in Names |->
                     [k \in Keys |-> IF m = n2 /\ k = k2 THEN e2.v
                                     ELSE IF m = n1 /\ k = k1 THEN e1.v ELSE ref[m][k]]]
-       /\ last' = [a |-> "Batch", items |-> <<[name |-> n1, k |-> k1, v |-> e1.v, del |-> d1],
-                                              [name |-> n2, k |-> k2, v |-> e2.v, del |-> d2]>>]
+       /\ last' = [a |-> "Batch", dur |-> dur,
+                    items |-> <<[name |-> n1, k |-> k1, v |-> e1.v, del |-> d1],
+                                [name |-> n2, k |-> k2, v |-> e2.v, del |-> d2]>>]
     /\ nops' = nops + 1
     /\ UNCHANGED <<nextId, kmap, meta, dirs, old, zombie, held, jmgr, flushq, views, trk,
                    filt, frozen, taint, mtaint, ing, kf, everDel, nreopen, nmaint, nviews>>
+
+\* A batch that still holds the handle of a keyspace that was deleted in the meantime (the
+\* client kept a clone: id \in held), together with an item for a live keyspace.  commit()
+\* does not look at is_deleted: the journal record carries the deleted keyspace's id (recovery
+\* skips it: the id no longer resolves and is never handed out again), the item lands in the
+\* memtable of the deleted keyspace, which nobody can read.  Nothing of it may show up anywhere
+\* else - in particular not in a keyspace re-created under the same name (C12).
+StaleBatch(id, k1, d1, n2, k2, d2) ==
+    /\ EnBatch /\ EnKs
+    /\ nops < MaxOps
+    /\ id \in held /\ id \in zombie
+    /\ kmap[n2] # 0 /\ NoStall(kmap[n2]) /\ NoStall(id)
+    /\ (d1 \/ d2) => EnRemove
+    /\ LET s  == seqno
+           v  == nops + 1
+           i2 == kmap[n2]
+           e1 == IF d1 THEN Entry(k1, s, "T", NoVal, FALSE) ELSE Entry(k1, s, "V", v, FALSE)
+           e2 == IF d2 THEN Entry(k2, s, "T", NoVal, FALSE) ELSE Entry(k2, s, "V", v, FALSE)
+       IN
+       /\ seqno' = s + 1
+       /\ journals' = JAppend([s |-> s,
+                               items |-> <<[id |-> id, k |-> k1, t |-> e1.t, v |-> e1.v],
+                                           [id |-> i2, k |-> k2, t |-> e2.t, v |-> e2.v]>>,
+                               clears |-> <<>>])
+       /\ lsm' = [lsm EXCEPT ![id].a = @ \cup {e1}, ![i2].a = @ \cup {e2}]
+       /\ visible' = Publish(s)
+       /\ ref' = [ref EXCEPT ![n2][k2] = e2.v]
+       /\ everDel' = everDel \cup (IF d1 THEN {} ELSE {v})
+       /\ last' = [a |-> "StaleBatch", id |-> id, k |-> k1, del |-> d1, v |-> e1.v,
+                    item |-> [name |-> n2, k |-> k2, v |-> e2.v, del |-> d2]]
+    /\ nops' = nops + 1
+    /\ UNCHANGED <<nextId, kmap, meta, dirs, old, zombie, held, jmgr, flushq, views, trk,
+                   filt, frozen, taint, mtaint, ing, kf, nreopen, nmaint, nviews>>
 
 \* Keyspace::clear: draw s, journal clear record, tree.clear() = version upgrade (draws a
 \* second seqno for the version, bumps visible), publish(s)
@@ -776,8 +817,9 @@ MayReplayOverIngested(js, known) ==
 \* the next recovery - the item is back in its original form.
 FilterReplayRisk(id, k) ==
     /\ id \in LiveIds /\ filt[id] # "none"
-    /\ FilterEntryK(filt[id], Entry(k, 0, "V", 1, FALSE)).t = "T"   \* the filter's verdict for k is Remove
-    /\ \E n \in LiveNames : kmap[n] = id /\ ref[n][k] # NoVal /\ ScanRead(id, k, Inf) = NoVal
+    /\ \E n \in LiveNames : /\ kmap[n] = id /\ ref[n][k] # NoVal /\ ScanRead(id, k, Inf) = NoVal
+                             \* the filter's verdict for the item is Remove
+                             /\ FilterEntryK(filt[id], Entry(k, 0, "V", ref[n][k], FALSE)).t = "T"
     /\ \E x \in 1..Len(journals) : \E y \in 1..Len(journals[x].recs) :
           LET r == journals[x].recs[y] IN
           /\ \E z \in 1..Len(r.items) : r.items[z].id = id /\ r.items[z].k = k /\ r.items[z].t = "V"
@@ -821,7 +863,8 @@ Next ==
     \/ \E n \in Names, b \in BOOLEAN : DeleteKeyspace(n, b)
     \/ \E id \in Ids : DropHandle(id)
     \/ \E n \in Names, k \in Keys, d \in BOOLEAN : Write(n, k, d)
-    \/ \E n1, n2 \in Names, k1, k2 \in Keys, d1, d2 \in BOOLEAN : BatchCommit(n1, k1, d1, n2, k2, d2)
+    \/ \E n1, n2 \in Names, k1, k2 \in Keys, d1, d2 \in BOOLEAN, dur \in BatchDurs : BatchCommit(n1, k1, d1, n2, k2, d2, dur)
+    \/ \E id \in Ids, n2 \in Names, k1, k2 \in Keys, d1, d2 \in BOOLEAN : StaleBatch(id, k1, d1, n2, k2, d2)
     \/ \E n \in Names : Clear(n)
     \/ \E n \in Names, ks \in SUBSET Keys, tb \in SUBSET Keys : Ingest(n, ks, tb)
     \/ \E n \in Names : Rotate(n)
